@@ -1,4 +1,5 @@
 import Econf
+import Generated.LeafFns
 
 /-!
   Scenario interpreter for the model: reads the same scenario text as harness/drv.c and
@@ -544,10 +545,55 @@ partial def docLoop (h : IO.FS.Stream) (out : IO.FS.Stream) (st : DocSt) : IO Un
     docLoop h out st
   | _ => docLoop h out st
 
+/-! ### `--leaf`: the translated string helpers (Generated/LeafFns.lean) run by the MiniC interpreter on the inputs
+that harness/leaf.c gives to the real C functions -/
+
+open MiniC in
+def leafLine (t : Array String) : String :=
+  let f := t.getD 0 ""
+  let a := decD (t.getD 1 "h")
+  let b := decD (t.getD 2 "h")
+  let c := decD (t.getD 3 "h")
+  let fuel := a.length + b.length + c.length + 16
+  let strOf := fun (m : Mem) (blk : Nat) (o : Int) => match m.cstr blk o with
+    | .ok s => hexStr s
+    | .error e => s!"unreadable({repr e})"
+  let fn? := LeafFns.all.find? (fun fn => fn.name == f)
+  match fn? with
+  | none => s!"{f} ?"
+  | some fn =>
+    let mem : Mem := if f == "check_delim" then [strBlock a, { cells := [none] }, { cells := [none] }]
+      else if f == "replace_str" then [strBlock a, strBlock b, strBlock c] else [strBlock a]
+    let args : List Val := if f == "check_delim" then [.ptr 0 0, .ptr 1 0, .ptr 2 0]
+      else if f == "replace_str" then [.ptr 0 0, .ptr 1 0, .ptr 2 0] else [.ptr 0 0]
+    match fn.run fuel mem args with
+    | .error e => s!"{f} fault {repr e}"
+    | .ok (v, m) =>
+      match f, v with
+      | "hashstring", .int n => s!"{f} {n}"
+      | "check_delim", _ =>
+        let bit := fun (blk : Nat) => match m.load8 blk 0 with
+          | .ok n => toString n
+          | .error e => s!"unreadable({repr e})"
+        s!"{f} {bit 1} {bit 2}"
+      | "addbrackets", .ptr blk o => s!"{f} {strOf m blk o} {strOf m 0 0}"
+      | "ltrim", .ptr _ o => s!"{f} {o} {strOf m 0 0}"
+      | "rtrim", .ptr _ o => s!"{f} {o} {strOf m 0 0}"
+      | _, .ptr blk o => s!"{f} {o} {strOf m blk o}"
+      | _, _ => s!"{f} unexpected result {repr v}"
+
+partial def leafLoop (h : IO.FS.Stream) (out : IO.FS.Stream) : IO Unit := do
+  let line ← h.getLine
+  if line.isEmpty then return ()
+  let t := splitTokens line.trimAsciiEnd.toString
+  if t.size ≥ 2 then out.putStrLn (leafLine t)
+  leafLoop h out
+
 end Drv
 
 def main (args : List String) : IO Unit := do
   let stdin ← IO.getStdin
   let stdout ← IO.getStdout
-  if args.contains "--docwf" then Drv.docLoop stdin stdout {}
+  if args.contains "--leaf" then Drv.leafLoop stdin stdout
+  else if args.contains "--docwf" then Drv.docLoop stdin stdout {}
   else Drv.loop stdin stdout none ""
